@@ -92,8 +92,12 @@ def classify(tags, dialect, missing, unexpected, exp):
     if dialect == "non-validating" and "col.qualified_by_full_name" in t:
         return "KF-16e"
     # KF-05: a set operation whose first branch has a source-less (literal) item mis-attributes later branches
+    # (what is mis-attributed are columns of the later branches of such a set operation: every differing pair starts at one of their tables,
+    #  or at a sub-query / candidate set)
     if "setop.first_branch_literal" in t:
-        return "KF-05"
+        scope = set(exp.get("kf05_tables") or [])
+        if all(p[0].rsplit(".", 1)[0] in scope or is_table_owned(p[0]) is not True for p in list(missing) + list(unexpected)):
+            return "KF-05"
     # KF-06: two relations with the same bare name in scope: a qualifier resolves to the wrong one
     if "from.same_bare_name_twice" in t:
         return "KF-06"
